@@ -11,6 +11,8 @@ import (
 	"fmt"
 	cose "github.com/veraison/go-cose"
 	"hash/crc32"
+	"math/big"
+	"strings"
 	"time"
 
 	psatoken "github.com/veraison/psatoken"
@@ -232,7 +234,17 @@ func init() {
 				nint := uint64(-1 - id)
 				var prot []byte
 				what := ""
-				switch c.Choose("encoding", 6) {
+				switch c.Choose("encoding", 11) {
+				case 6: // the algorithm given by its registered NAME instead of its number
+					prot, what = mcbor.Encode(mcbor.M(mcbor.U(1), mcbor.T(a.alg))), "alg-as-text"
+				case 7:
+					prot, what = mcbor.Encode(mcbor.M(mcbor.U(1), mcbor.T(strings.ToLower(a.alg)))), "alg-as-text-lowercase"
+				case 8:
+					prot, what = mcbor.Encode(mcbor.M(mcbor.U(1), mcbor.T(" "+a.alg+" "))), "alg-as-text-padded"
+				case 9: // the same number as a float / a bignum
+					prot, what = mcbor.Encode(mcbor.M(mcbor.U(1), mcbor.F(float64(id), 2))), "alg-as-float"
+				case 10: // an additional (ignored?) entry
+					prot, what = mcbor.Encode(mcbor.M(mcbor.U(1), mcbor.N(nint), mcbor.U(4), mcbor.B([]byte("kid")))), "additional-entry"
 				case 0: // value with a 1-byte argument although it fits the initial byte
 					prot, what = mcbor.Encode(mcbor.M(mcbor.U(1), mcbor.N(nint).W(1))), "value-nonminimal-1"
 				case 1:
@@ -383,6 +395,20 @@ func init() {
 			c02stats.Trans.Add(1)
 			if ev.Verify(keys[ki]) == nil {
 				c.Failf(fmt.Sprintf("C02:verifies-with-unusable-key:%s:%T", alg, keys[ki]), "Verify(%#v) succeeded on a genuine %s token", keys[ki], alg)
+			}
+			// a key that shares a component with the signer's but is another key: same RSA modulus with another public
+			// exponent; the signer's EC point on another curve's key object
+			switch pk := s.key.Pub.(type) {
+			case *rsa.PublicKey:
+				for _, e := range []int{3, 65539, pk.E + 2} {
+					if ev.Verify(&rsa.PublicKey{N: pk.N, E: e}) == nil {
+						c.Failf("C02:verifies-with-other-key:same-modulus-other-exponent:"+alg, "Verify succeeds with the signer's modulus and public exponent %d", e)
+					}
+				}
+			case *ecdsa.PublicKey:
+				if ev.Verify(&ecdsa.PublicKey{Curve: pk.Curve, X: pk.X, Y: new(big.Int).Sub(pk.Curve.Params().P, pk.Y)}) == nil {
+					c.Failf("C02:verifies-with-other-key:negated-point:"+alg, "Verify succeeds with the negation of the signer's public point")
+				}
 			}
 			if ev.Verify(s.key.Pub) != nil {
 				c.Failf("C02:genuine-token-stops-verifying:"+alg, "after Verify with an unusable key")
